@@ -131,16 +131,29 @@ def _draw_conj(ch, x, t):
     return {}
 
 
+# documented defaults: an argument equal to its default is left out of the
+# call, so that the defaults themselves are exercised
+_DEFAULTS = {"phase_permutation": True, "phase_dual": False,
+             "cutoff": -1.0, "cutoff_mode": 4, "max_bond": -1, "absorb": 0,
+             "renorm": 0}
+
+
+def drop_defaults(a):
+    return {k: v for k, v in a.items()
+            if not (k in _DEFAULTS and type(v) is type(_DEFAULTS[k])
+                    and v == _DEFAULTS[k])}
+
+
 @register("conj", applicable=is_arr, draw=_draw_conj, inplace=True)
 def _conj(x, a, lazy=True, **kw):
-    return x.conj(**a, **kw)
+    return x.conj(**drop_defaults(a), **kw)
 
 
 @register("dagger", applicable=is_arr, inplace=True,
           draw=lambda ch, x, t: ({"phase_dual": ch.boolean(t + ".pd")}
                                  if x.fermionic else {}))
 def _dagger(x, a, lazy=True, **kw):
-    return x.dagger(**a, **kw)
+    return x.dagger(**drop_defaults(a), **kw)
 
 
 @register("H", applicable=is_arr, draw=noargs)
@@ -589,7 +602,7 @@ def _draw_svdt(ch, x, t):
 def _svdt(x, a, lazy=True):
     import symmray as sr
 
-    return sr.linalg.svd_truncated(x, **a)
+    return sr.linalg.svd_truncated(x, **drop_defaults(a))
 
 
 def hermitian_able(x):
